@@ -41,6 +41,7 @@ Candidate genuine defect reported on the unchanged tree: ``none-closure-value-bo
 """
 from __future__ import annotations
 
+import collections
 import datetime
 import decimal
 
@@ -78,7 +79,7 @@ def run(ctx):
 
     env = G.make_env()
     ta, tb, tc = env.tables["a"], env.tables["b"], env.tables["c"]
-    A, B = env.entities["A"], env.entities["B"]
+    A, B, C = env.entities["A"], env.entities["B"], env.entities["C"]
     A1 = orm.aliased(A, name="a_1")
     rng = ctx.rng
     # plain functions as closure variables are tracked by their code object; module objects (sa, orm) are not cacheable
@@ -385,6 +386,88 @@ def run(ctx):
         return ({"tab": tab.name, "col": col.name, "v": v}, s,
                 select(ta.c.id).where(col > v).where(ta.c.id.in_(select(tab.c.id))).order_by(ta.c.id))
 
+    # -- one closure variable used in the same lambda both as a literal value itself and through .attr / [index] paths
+    class IntWithExtra(int):
+        """an int (usable as a bound value as it is) that also carries an attribute"""
+
+    @template("date_and_its_attributes")
+    def _():
+        day = datetime.date(2020, rng.randint(1, 12), rng.randint(1, 27))
+        return ({"day": day},
+                lambda_stmt(lambda: select(tc.c.id).where(tc.c.d >= day).where(tc.c.id != day.month).where(tc.c.b_id != day.day)),
+                select(tc.c.id).where(tc.c.d >= day).where(tc.c.id != day.month).where(tc.c.b_id != day.day))
+
+    @template("attribute_first_then_whole_value")
+    def _():
+        day = datetime.date(2020, rng.randint(1, 12), rng.randint(1, 27))
+        s = lambda_stmt(lambda: select(tc.c.id).where(tc.c.b_id > day.day))
+        s += lambda s_: s_.where(tc.c.d != day).where(tc.c.id >= day.month)
+        return {"day": day}, s, select(tc.c.id).where(tc.c.b_id > day.day).where(tc.c.d != day).where(tc.c.id >= day.month)
+
+    @template("int_subclass_and_its_attribute")
+    def _():
+        obj = IntWithExtra(ival())
+        obj.extra = ival()
+        return ({"obj": int(obj), "extra": obj.extra},
+                lambda_stmt(lambda: select(ta.c.id).where(ta.c.x != obj).where(ta.c.y != obj.extra)),
+                select(ta.c.id).where(ta.c.x != int(obj)).where(ta.c.y != obj.extra))
+
+    Triple = collections.namedtuple("Triple", "first second third")
+
+    @template("namedtuple_whole_and_by_field")
+    def _():
+        nt = Triple(ival(), ival(), ival())
+        return ({"nt": list(nt)},
+                lambda_stmt(lambda: select(tb.c.id).where(tb.c.q.not_in(nt)).where(tb.c.id != nt.first).where(tb.c.a_id != nt.third)),
+                select(tb.c.id).where(tb.c.q.not_in(nt)).where(tb.c.id != nt.first).where(tb.c.a_id != nt.third))
+
+    @template("dict_items_by_key")
+    def _():
+        d = {"lo": ival(), "hi": ival(), "vals": [ival(), ival()]}
+        s = lambda_stmt(lambda: select(tb.c.id).where(tb.c.q != d["lo"]), track_closure_variables=False)
+        s = s.add_criteria(lambda s_: s_.where(tb.c.id != d["hi"]).where(tb.c.a_id.not_in(d["vals"])), track_closure_variables=False)
+        return ({"d": d}, s, select(tb.c.id).where(tb.c.q != d["lo"]).where(tb.c.id != d["hi"]).where(tb.c.a_id.not_in(d["vals"])))
+
+    # -- ORM loader option chains: relationship criteria with a closure value at any level of the chain, not
+    #    necessarily on its last element; every loader strategy; plain criteria and lambda criteria; the statement
+    #    as such and wrapped in lambda_stmt
+    loaders = {"selectinload": orm.selectinload, "lazyload": orm.lazyload, "joinedload": orm.joinedload,
+               "subqueryload": orm.subqueryload, "immediateload": orm.immediateload}
+
+    chain_shapes = []
+
+    @template("orm_loader_chain_criteria", orm_=True)
+    def _():
+        val, w = ival(), rng.randint(3, 12)
+        if not chain_shapes:
+            # a handful of chain shapes per history, so that each shape is invoked again and again with new values
+            for _ in range(8):
+                chain_shapes.append((rng.choice(sorted(loaders)), rng.choice(sorted(loaders)), rng.choice([1, 2, 2]),
+                                     rng.choice(["expr", "lambda"]), rng.choice(["none", "selectinload", "joinedload", "load_only", "defer"]),
+                                     rng.choice(["plain", "plain", "lambda_stmt"])))
+        # s1/s2: loader strategy per level; pos: level that carries the criteria; tail: what follows the criteria
+        s1, s2, pos, form, tail, wrap = rng.choice(chain_shapes)
+
+        def build(wrap):
+            def crit(rel, col):
+                return rel.and_(col >= val) if form == "expr" else rel.and_(lambda: col >= val)
+            first = crit(A.bs, B.q) if pos == 1 else A.bs
+            second = crit(B.cs, C.id) if pos == 2 else B.cs
+            opt = getattr(loaders[s1](first), s2)(second)
+            if tail in ("selectinload", "joinedload"):
+                opt = getattr(opt, tail)(C.b)
+            elif tail == "load_only":
+                opt = opt.load_only(C.u)
+            elif tail == "defer":
+                opt = opt.defer(C.n)
+            if wrap == "plain":
+                return select(A).options(opt).where(A.id < w).order_by(A.id)
+            st = lambda_stmt(lambda: select(A).options(opt))
+            st += lambda s_: s_.where(A.id < w).order_by(A.id)
+            return st
+        # the direct twin is always the plain select(), executed without a compiled cache
+        return ({"s1": s1, "s2": s2, "pos": pos, "form": form, "tail": tail, "wrap": wrap, "val": val, "w": w}, build(wrap), build("plain"))
+
     @template("update_lambda", dml=True)
     def _():
         v, w = ival(), ival()
@@ -448,8 +531,21 @@ def run(ctx):
         sp.clear()
     others = {"postgresql": postgresql.dialect(paramstyle="format"), "mysql": mysql.dialect(), "mssql": mssql.dialect(paramstyle="qmark")}
 
+    def graph(v):
+        """entity -> (class, id, loaded/lazy-loaded collections two levels deep), by plain attribute access"""
+        if type(v).__name__ == "A" and not sa.inspect(v).mapper.class_ is A1:
+            try:
+                return ("A", v.id, tuple((b.id, tuple(c.id for c in b.cs)) for b in v.bs))
+            except sa_exc.InvalidRequestError:
+                return ("A", v.id, "raise")
+        return None
+
     def norm(v):
         st = getattr(v, "_sa_instance_state", None)
+        if st is not None and GRAPH[0]:
+            g_ = graph(v)
+            if g_ is not None:
+                return g_
         if st is not None:
             d = {k: x for k, x in st.dict.items() if not k.startswith("_")}
             out = []
@@ -463,6 +559,8 @@ def run(ctx):
                     out.append((k, repr(x)))
             return (type(v).__name__, tuple(out))
         return v
+
+    GRAPH = [False]
 
     def execute(engine, spy, stmt, is_orm, ordered):
         mark = spy.mark()
@@ -516,7 +614,7 @@ def run(ctx):
                 continue
             has_none = any(v is None for v in vals.values())
             has_bool = any(isinstance(v, bool) for v in vals.values())
-            struct_keys = {k: v for k, v in vals.items() if k in ("col", "tab", "cols", "ent", "root", "mid") or v is None or isinstance(v, list) and k == "vals" and False}
+            struct_keys = {k: v for k, v in vals.items() if k in ("col", "tab", "cols", "ent", "root", "mid", "s1", "s2", "pos", "form", "tail", "wrap") or v is None or isinstance(v, list) and k == "vals" and False}
             struct = repr(sorted(struct_keys.items())) + (":len%d" % len(vals["vals"]) if "vals" in vals else "")
             p = prev.get(name)
             changed = p is not None and any(p.get(k) != v for k, v in vals.items())
@@ -528,6 +626,7 @@ def run(ctx):
             prev[name] = vals
             size0 = len(_lm._closure_per_cache_key)
             try:
+                GRAPH[0] = name == "orm_loader_chain_criteria"
                 out_l = execute(eng_l, spy_l, lam, t["orm"], ordered=True)
             except (sa_exc.InvalidRequestError, sa_exc.ArgumentError) as e:
                 ctx.count("rejected_by_library")
@@ -564,6 +663,10 @@ def run(ctx):
             if what is not None:
                 if has_none:
                     mech = "none-closure-value-bound-as-parameter"
+                elif name == "orm_loader_chain_criteria" and vals.get("wrap") == "lambda_stmt":
+                    # a loader option carrying criteria with their own bound value, held in the closure of a
+                    # lambda_stmt that has further links with literals
+                    mech = "lambda-differs-from-direct:loader-criteria-option-in-lambda_stmt-closure"
                 else:
                     mech = f"lambda-differs-from-direct:{name}:{what.split('-')[0]}"
                 ctx.violation(
